@@ -73,34 +73,106 @@ REG.assume_note("C02/C03 KeyboardInterrupt is modelled at three points only: rai
 
 
 # ---------------------------------------------------------------- ghost helpers
-def gset(E, lv, idx, val):
-    """ghost array write lv[idx] := val (the list length is not used: ghost lists are read as total maps)"""
-    terms = pack(lv.et, val)
-    E.set_larrs(lv, [z3.Store(a, idx, t) for a, t in zip(E.larrs(lv), terms)])
+# Ghost maps and snapshots are specification-only VALUES held in the frame environment (a z3 array term each): they
+# are not heap objects, so creating and updating them allocates nothing and writes nothing the program can see.
+classdecl("GArrC", fields={})
+classdecl("GSnapC", fields={})
 
 
-def gnew(E, ty):
-    return E.new_list(ty, 0)
+class GArr(RefV):
+    """ghost total map Int -> int | real"""
+    __slots__ = ("arr", "ek")
+
+    def __init__(self, arr, ek):
+        RefV.__init__(self, 0, "GArrC", nn=True)
+        self.arr = arr
+        self.ek = ek
+
+
+class GSnap(RefV):
+    """ghost snapshot of a list: length term and one array per component of the element type"""
+    __slots__ = ("n", "arrs", "et")
+
+    def __init__(self, n, arrs, et):
+        RefV.__init__(self, 0, "GSnapC", nn=True)
+        self.n = n
+        self.arrs = arrs
+        self.et = et
+
+    def at(self, idx):
+        return unpack(self.et, [z3.Select(a, idx) for a in self.arrs], None)
+
+
+@hook("GArrC", "getitem")
+def _garr_get(E, g, idx):
+    return Sym(z3.Select(g.arr, zint(idx)), g.ek)
+
+
+@hook("GSnapC", "getitem")
+def _gsnap_get(E, g, idx):
+    return g.at(zint(idx))
+
+
+@hook("GSnapC", "len")
+def _gsnap_len(E, g):
+    return Sym(g.n, "int")
+
+
+def gnew(E, name, ty):
+    srt = z3.ArraySort(z3.IntSort(), sorts(ty)[0])
+    return GArr(E.fresh("gh_" + name, srt), "int" if ty.kind == "int" else "real")
+
+
+def gset(E, name, idx, val):
+    """ghost map update env[name][idx] := val"""
+    env = E.frame.env
+    g = env[name]
+    term = zint(val) if g.ek == "int" else zreal(val)
+    env[name] = GArr(z3.Store(g.arr, idx, term), g.ek)
+
+
+def gget(E, name, idx):
+    g = E.frame.env[name]
+    return Sym(z3.simplify(z3.Select(g.arr, idx)), g.ek)
 
 
 def snap(E, lv):
-    return E.new_list(lv.et, E.llen(lv), E.larrs(lv))
+    return GSnap(E.llen(lv), list(E.larrs(lv)), lv.et)
+
+
+def empty_snap(E):
+    return GSnap(z3.IntVal(0), [E.fresh("gh_empty", z3.ArraySort(z3.IntSort(), s_)) for s_ in sorts(ENT)], ENT)
 
 
 GHOST_INT = ("g_out", "g_st", "g_des", "g_k", "g_d", "g_a")
+GHOST_TICK = GHOST_INT + ("g_per",)
+
+
+def _new_tick_ghost(E):
+    env = E.frame.env
+    for name in GHOST_INT:
+        env[name] = gnew(E, name, INT)
+    env["g_per"] = gnew(E, "g_per", REAL)
 
 
 def _setup_run(E):
     env = E.frame.env
-    env["g_off"] = gnew(E, INT)
-    gset(E, env["g_off"], z3.IntVal(0), 0)
-    for name in GHOST_INT:
-        env[name] = gnew(E, INT)
-    env["g_per"] = gnew(E, REAL)
+    env["g_off"] = gnew(E, "g_off", INT)
+    gset(E, "g_off", z3.IntVal(0), 0)
+    _new_tick_ghost(E)
     for name in ("g_R0", "g_A0", "g_F0"):
-        env[name] = E.new_list(ENT, 0)
+        env[name] = empty_snap(E)
     env.update(g_phase=0, g_kbi=False, g_exc=False, g_insend=False, g_cur=0, g_sent=0, g_swept=False, g_swi=0,
                g_w=-1, g_base=0, g_fbase=0, g_s0=E.rd_field(env["self"], "stamp"))
+
+
+def _havoc_ghost(names):
+    """loop-head havoc of ghost maps that the body updates (they are re-described by the invariant)"""
+    def h(E):
+        env = E.frame.env
+        for name in names:
+            env[name] = gnew(E, "hv_" + name, INT if env[name].ek == "int" else REAL)
+    return h
 
 
 # ---------------------------------------------------------------- opaque collaborators
@@ -152,16 +224,18 @@ def _send(E, tasker, control):
     i = None
     if phase == 1:
         i = zint(env["_i"])
-        gset(E, env["g_des"], i, des)
-        gset(E, env["g_per"], i, E.rd_field(tasker, "period"))     # period read AFTER the send
+        gset(E, "g_des", i, des)
+        gset(E, "g_per", i, E.rd_field(tasker, "period"))     # period read AFTER the send
         env["g_cur"] = Sym(i, "int")
         env["g_insend"] = True
-    k = E.choose(5)
+    # in the tick: return | StopIteration | Exception | KeyboardInterrupt; in the sweep every exception other than
+    # StopIteration just escapes, one representative (Exception) is explored
+    k = E.choose(4 if phase == 1 else 3)
     if k == 0:
         st = E.fresh_val("send_status", INT)
         E.assume(slot.t == st.t)
         if phase == 1:
-            gset(E, env["g_st"], i, st)
+            gset(E, "g_st", i, st)
             env["g_sent"] = 1
             env["g_insend"] = False
         return st
@@ -170,7 +244,7 @@ def _send(E, tasker, control):
             env["g_sent"] = 2
             env["g_insend"] = False
         raise PyRaise(ExcV(StopIteration, ()))
-    raise PyRaise(ExcV((Exception, KeyboardInterrupt, SystemExit)[k - 2], ("raised by a runner",)))
+    raise PyRaise(ExcV((Exception, KeyboardInterrupt)[k - 2], ("raised by a runner",)))
 
 
 @hook("TaskerS", "getattr", "runner")
@@ -187,11 +261,9 @@ def _tick_enter(E):
     env["g_R0"] = snap(E, env["ready"])
     env["g_A0"] = snap(E, env["aborted"])
     env["g_base"] = Sym(E.ct_length(), "int")
-    for name in GHOST_INT:
-        env[name] = gnew(E, INT)
-    env["g_per"] = gnew(E, REAL)
+    _new_tick_ghost(E)
     for name in ("g_k", "g_d", "g_a"):
-        gset(E, env[name], z3.IntVal(0), 0)
+        gset(E, name, z3.IntVal(0), 0)
     env.update(g_phase=1, g_sent=0, g_insend=False, g_cur=0, g_w=-1)
 
 
@@ -204,22 +276,23 @@ def _tick_end(E):
     env = E.frame.env
     i = zint(env["_i"])
     sent = env["g_sent"]
-    ent = E.lget(env["g_R0"], i)
+    ent = env["g_R0"].at(i)
     if sent == 0:
         st = E.rd_field(ent[0], "status")
-        gset(E, env["g_st"], i, st)
+        gset(E, "g_st", i, st)
         stz = zint(st)
         out = z3.IntVal(0)
     elif sent == 1:
-        stz = zint(E.lget(env["g_st"], i))
+        stz = zint(gget(E, "g_st", i))
         out = z3.If(stz == ABORTED, z3.IntVal(2), z3.IntVal(1))
     else:
         stz = None
         out = z3.IntVal(3)
-    gset(E, env["g_out"], i, Sym(out, "int"))
+    out = z3.simplify(out)
+    gset(E, "g_out", i, Sym(out, "int"))
     for name, cond in (("g_k", out <= 1), ("g_d", out != 0), ("g_a", out >= 2)):
-        cur = zint(E.lget(env[name], i))
-        gset(E, env[name], i + 1, Sym(z3.simplify(cur + z3.If(cond, 1, 0)), "int"))
+        cur = zint(gget(E, name, i))
+        gset(E, name, i + 1, Sym(z3.simplify(cur + z3.If(cond, 1, 0)), "int"))
     if stz is not None:
         env["g_w"] = Sym(z3.If(z3.Or(stz == STARTED, stz == RUNNING), i, zint(env["g_w"])), "int")
 
@@ -262,8 +335,8 @@ def _inner_exit(E):
     env = E.frame.env
     hix = zint(env["hix"])
     n = E.llen(E.rd_field(env["house"], "taskables"))
-    cur = zint(E.lget(env["g_off"], hix))
-    gset(E, env["g_off"], hix + 1, Sym(z3.simplify(cur + n), "int"))
+    cur = zint(gget(E, "g_off", hix))
+    gset(E, "g_off", hix + 1, Sym(z3.simplify(cur + n), "int"))
 
 
 def _obliger(kind, clauses):
@@ -297,8 +370,8 @@ def aborts_in_order(E, f0, fbase):
     """trace positions fbase .. fbase + len(f0) - 1 are send(ABORT) to the taskers of f0, in order"""
     k = z3.Int("k!ab%d" % next(E.counter))
     ev = E.ct_get(zint(fbase) + k)
-    t = E.lget(f0, k)[0]
-    return Sym(z3.ForAll([k], z3.Implies(z3.And(k >= 0, k < E.llen(f0)),
+    t = f0.at(k)[0]
+    return Sym(z3.ForAll([k], z3.Implies(z3.And(k >= 0, k < f0.n),
                                          z3.And(ev[0].t == code(E, "send"), ev[1].t == t.t, ev[2].t == ABORT))), "bool")
 
 
@@ -318,7 +391,7 @@ contract(FS, "Skedder.addReadyTask", "C02", params=dict(self=Ref("Skedder"), tas
          modifies=["self.ready[*]", "tasker.desire", "tasker.status"],
          ensures=["len(self.ready) == old(len(self.ready)) + 1",
                   # ready == old(ready) ++ [(tasker, tasker.store.stamp, tasker.period)]
-                  "is_slice(oldlist(self.ready), self.ready, 0, old(len(self.ready)))",
+                  "forall(lambda k: implies(0 <= k and k < old(len(self.ready)), self.ready[k] == old(self.ready[k])))",
                   "self.ready[old(len(self.ready))] == (tasker, tasker.store.stamp, tasker.period)",
                   "tasker.desire == (1 if tasker.schedule == 1 else 0)",        # START if ACTIVE else STOP
                   "tasker.status == 0"])                                         # STOPPED
@@ -333,7 +406,8 @@ contract(FH, "House.orderTaskables", "C02", params=dict(self=Ref("HouseS")), mod
 # different objects, which the untyped reference model of the heap does not know)
 DISTINCT = ["self.ready is not self.aborted",
             "self.houses is not self.ready and self.houses is not self.aborted",
-            "forall(Ref('HouseS'), lambda h: h.taskables is not self.ready and h.taskables is not self.aborted)"]
+            "forall(lambda h: implies(0 <= h and h < len(self.houses), self.houses[h].taskables is not self.ready and "
+            "self.houses[h].taskables is not self.aborted), trigger=lambda h: self.houses[h])"]
 
 R0LEN = "old(len(self.ready))"
 SLOT = "self.ready[%s + g_off[h] + t]" % R0LEN
@@ -350,8 +424,10 @@ SETUP_COMMON = [
 ]
 SETUP_OUTER = [
     "g_off[0] == 0 and 0 <= g_off[hix]",
-    "forall(lambda h: implies(0 <= h and h < hix, g_off[h + 1] == g_off[h] + len(self.houses[h].taskables)))",
-    "forall(lambda h: implies(0 <= h and h < hix, 0 <= g_off[h] and g_off[h + 1] <= g_off[hix]))",
+    "forall(lambda h: implies(0 <= h and h < hix, g_off[h + 1] == g_off[h] + len(self.houses[h].taskables)), "
+    "trigger=lambda h: self.houses[h])",
+    "forall(lambda h: implies(0 <= h and h < hix, 0 <= g_off[h] and g_off[h + 1] <= g_off[hix]), "
+    "trigger=lambda h: self.houses[h])",
     "len(self.ready) == %s + g_off[hix]" % R0LEN,
     "forall(lambda h: implies(0 <= h and h < hix, self.houses[h].store.stamp == stamp))",
 ] + SETUP_COMMON
@@ -373,52 +449,53 @@ TICK_INV = [
     "forall(lambda j: implies(0 <= j and j < len(g_R0) - _i, ready[j] == g_R0[_i + j]))",
     # prefix counts
     "g_k[0] == 0 and g_d[0] == 0 and g_a[0] == 0 and 0 <= g_k[_i] and 0 <= g_d[_i] and 0 <= g_a[_i]",
-    "forall(lambda j: implies(0 <= j and j < _i, 0 <= g_out[j] and g_out[j] <= 3))",
-    "forall(lambda j: implies(0 <= j and j < _i, g_k[j + 1] == g_k[j] + (1 if g_out[j] <= 1 else 0)))",
-    "forall(lambda j: implies(0 <= j and j < _i, g_d[j + 1] == g_d[j] + (0 if g_out[j] == 0 else 1)))",
-    "forall(lambda j: implies(0 <= j and j < _i, g_a[j + 1] == g_a[j] + (1 if g_out[j] >= 2 else 0)))",
-    "forall(lambda j: implies(0 <= j and j < _i and g_out[j] <= 1, 0 <= g_k[j] and g_k[j] < g_k[_i]))",
-    "forall(lambda j: implies(0 <= j and j < _i and g_out[j] != 0, 0 <= g_d[j] and g_d[j] < g_d[_i]))",
-    "forall(lambda j: implies(0 <= j and j < _i and g_out[j] >= 2, 0 <= g_a[j] and g_a[j] < g_a[_i]))",
+    "forall(lambda j: implies(0 <= j and j < _i, 0 <= g_out[j] and g_out[j] <= 3), trigger=lambda j: g_out[j])",
+    "forall(lambda j: implies(0 <= j and j < _i, g_k[j + 1] == g_k[j] + (1 if g_out[j] <= 1 else 0)), trigger=lambda j: g_out[j])",
+    "forall(lambda j: implies(0 <= j and j < _i, g_d[j + 1] == g_d[j] + (0 if g_out[j] == 0 else 1)), trigger=lambda j: g_out[j])",
+    "forall(lambda j: implies(0 <= j and j < _i, g_a[j + 1] == g_a[j] + (1 if g_out[j] >= 2 else 0)), trigger=lambda j: g_out[j])",
+    "forall(lambda j: implies(0 <= j and j < _i and g_out[j] <= 1, 0 <= g_k[j] and g_k[j] < g_k[_i]), trigger=lambda j: g_out[j])",
+    "forall(lambda j: implies(0 <= j and j < _i and g_out[j] != 0, 0 <= g_d[j] and g_d[j] < g_d[_i]), trigger=lambda j: g_out[j])",
+    "forall(lambda j: implies(0 <= j and j < _i and g_out[j] >= 2, 0 <= g_a[j] and g_a[j] < g_a[_i]), trigger=lambda j: g_out[j])",
     # run iff due
-    "forall(lambda j: implies(0 <= j and j < _i, iff(g_out[j] == 0, g_R0[j][1] > stamp)))",
+    "forall(lambda j: implies(0 <= j and j < _i, iff(g_out[j] == 0, g_R0[j][1] > stamp)), trigger=lambda j: g_out[j])",
     # (2) re-appended entries: not due -> identical triple; run -> retime + period read after the send
-    "forall(lambda j: implies(0 <= j and j < _i and g_out[j] == 0, %s == g_R0[j]))" % POS,
+    "forall(lambda j: implies(0 <= j and j < _i and g_out[j] == 0, %s == g_R0[j]), trigger=lambda j: g_out[j])" % POS,
     "forall(lambda j: implies(0 <= j and j < _i and g_out[j] == 1, "
-    "%s == (g_R0[j][0], g_R0[j][1] + g_per[j], g_per[j])))" % POS,
+    "%s == (g_R0[j][0], g_R0[j][1] + g_per[j], g_per[j])), trigger=lambda j: g_out[j])" % POS,
     # (3) the sends of this tick: one per due entry, in queue order, control = the tasker's desire at that moment
     "ct_len() == g_base + g_d[_i]",
     "forall(lambda j: implies(0 <= j and j < _i and g_out[j] != 0, "
-    "ct_is(g_base + g_d[j], 'send', g_R0[j][0], g_des[j])))",
+    "ct_is(g_base + g_d[j], 'send', g_R0[j][0], g_des[j])), trigger=lambda j: g_out[j])",
     "forall(lambda j: implies(0 <= j and j < _i and (g_out[j] == 1 or g_out[j] == 2), "
-    "ct_res(g_base + g_d[j]) == g_st[j] and iff(g_out[j] == 2, g_st[j] == 3)))",
+    "ct_res(g_base + g_d[j]) == g_st[j] and iff(g_out[j] == 2, g_st[j] == 3)), trigger=lambda j: g_out[j])",
     # (4) ABORTED / StopIteration entries are appended to `aborted` (and are not among the kept ones)
     "len(aborted) == len(g_A0) + g_a[_i]",
     "forall(lambda k: implies(0 <= k and k < len(g_A0), aborted[k] == g_A0[k]))",
     "forall(lambda j: implies(0 <= j and j < _i and g_out[j] >= 2, "
-    "aborted[len(g_A0) + g_a[j]] == (g_R0[j][0], stamp, g_R0[j][2])))",
+    "aborted[len(g_A0) + g_a[j]] == (g_R0[j][0], stamp, g_R0[j][2])), trigger=lambda j: g_out[j])",
 ]
 TICK_POST = [
     # the invariant at i == m, the form the statement uses
     "len(ready) == g_k[len(g_R0)] and len(aborted) == len(g_A0) + g_a[len(g_R0)] and "
     "ct_len() == g_base + g_d[len(g_R0)]",
-    "forall(lambda j: implies(0 <= j and j < len(g_R0), iff(g_out[j] == 0, g_R0[j][1] > stamp)))",
+    "forall(lambda j: implies(0 <= j and j < len(g_R0), iff(g_out[j] == 0, g_R0[j][1] > stamp)), trigger=lambda j: g_out[j])",
     "forall(lambda j: implies(0 <= j and j < len(g_R0) and g_out[j] != 0, "
-    "ct_is(g_base + g_d[j], 'send', g_R0[j][0], g_des[j])))",
+    "ct_is(g_base + g_d[j], 'send', g_R0[j][0], g_des[j])), trigger=lambda j: g_out[j])",
     "forall(lambda j: implies(0 <= j and j < len(g_R0) and g_out[j] == 1, "
-    "ready[g_k[j]] == (g_R0[j][0], g_R0[j][1] + g_per[j], g_per[j])))",
-    "forall(lambda j: implies(0 <= j and j < len(g_R0) and g_out[j] == 0, ready[g_k[j]] == g_R0[j]))",
+    "ready[g_k[j]] == (g_R0[j][0], g_R0[j][1] + g_per[j], g_per[j])), trigger=lambda j: g_out[j])",
+    "forall(lambda j: implies(0 <= j and j < len(g_R0) and g_out[j] == 0, ready[g_k[j]] == g_R0[j]), trigger=lambda j: g_out[j])",
 ]
 # (5) `more` == some handled entry of this tick is STARTED or RUNNING (a runner that stopped does not count)
 MORE_INV = [
-    "implies(not more, forall(lambda j: implies(0 <= j and j < _i and g_out[j] != 3, g_st[j] != 1 and g_st[j] != 2)))",
+    "implies(not more, forall(lambda j: implies(0 <= j and j < _i and g_out[j] != 3, g_st[j] != 1 and g_st[j] != 2), "
+    "trigger=lambda j: g_out[j]))",
     "implies(more, 0 <= g_w and g_w < _i and g_out[g_w] != 3 and (g_st[g_w] == 1 or g_st[g_w] == 2))",
 ]
 SWEEP_INV = [
     "len(ready) == len(g_F0) - _i",
     "forall(lambda j: implies(0 <= j and j < len(ready), ready[j] == g_F0[_i + j]))",
     "ct_len() == g_fbase + _i",
-    "forall(lambda k: implies(0 <= k and k < _i, ct_is(g_fbase + k, 'send', g_F0[k][0], 3)))",
+    "forall(lambda k: implies(0 <= k and k < _i, ct_is(g_fbase + k, 'send', g_F0[k][0], 3)), trigger=lambda k: g_F0[k][0])",
 ]
 OUTER_INV = [
     "stamp == self.stamp",
@@ -437,6 +514,7 @@ GHOST = {"before": {"more = False": _tick_boundary, KBI_LINE: _flag("g_kbi"), EX
 
 def _loops(c03):
     tick = dict(inv=TICK_INV + (MORE_INV if c03 else []), locals={"g_w": INT}, enter=_tick_enter,
+                havoc=_havoc_ghost(GHOST_TICK),
                 body_begin=_tick_begin, body_end=_tick_end, force=True,
                 exit=(lambda E: _tick_exit(E, [] if c03 else TICK_POST)))
     if c03:
@@ -444,7 +522,7 @@ def _loops(c03):
     else:
         tick["locals"] = {"g_w": INT, "status": INT}
     return {
-        0: dict(inv=SETUP_OUTER, index_name="hix", force=True, exit=_obliger("setup-post", [] if c03 else SETUP_POST)),
+        0: dict(inv=SETUP_OUTER, index_name="hix", force=True, havoc=_havoc_ghost(("g_off",)), exit=_obliger("setup-post", [] if c03 else SETUP_POST)),
         1: dict(inv=SETUP_INNER, force=True, exit=_inner_exit),
         2: dict(inv=OUTER_INV),
         3: tick,
@@ -458,6 +536,7 @@ RUN_MODIFIES = ["self.ready[*]", "self.aborted[*]", "self.stamp",
                 havoc_all_but({"TaskerS": ["desire", "period", "status"], "StoreS": ["stamp"]}, keep=[])]
 
 contract(FS, "Skedder.run", "C02", params=dict(self=Ref("Skedder"), growable=BOOL), setup=_setup_run, assumes=DISTINCT,
+         dedupe=True,
          ghost=GHOST, loops=_loops(False), modifies=RUN_MODIFIES, frame=False,
          raises={"Exception": ["True"], "KeyboardInterrupt": ["True"], "SystemExit": ["True"]},
          note="[v0] C02: setup, tick rule, stamp.  The exits and the sweep are decided in [v1] (C03); paths on which "
@@ -478,6 +557,7 @@ EXC_POST = (["implies(L_g_swept, %s)" % c for c in SWEPT] + ["implies(not L_g_sw
             ["implies(L_g_insend, %s)" % c for c in CUT] + [RAISER])
 
 contract(FS, "Skedder.run", "C03", params=dict(self=Ref("Skedder"), growable=BOOL), setup=_setup_run, assumes=DISTINCT,
+         dedupe=True,
          ghost=GHOST, loops=_loops(True), modifies=RUN_MODIFIES, frame=False,
          ensures=SWEPT + [
              # the loop is left by `break` only right after a tick with nothing queued or nothing started / running
